@@ -1,6 +1,7 @@
 (* C20, parser half: every scanner of Model/PlayParse.v is characterised by the split of the line
    it finds (scan_*_spec, for all byte strings), and from that: parse_line is the unique item the
    declarative grammar LineSpec allows for a text line. *)
+From Coq Require Import Sorted.
 From Relay Require Import Base.Prelude Model.Filter Model.PlayParse.
 Local Open Scope string_scope.
 
@@ -776,3 +777,206 @@ Proof. split; vm_compute; reflexivity. Qed.
 Lemma long_line_read pd ro ai :
   List.length (load_text pd ro ai (rep 65536 "=")) = 1%nat.
 Proof. vm_compute; reflexivity. Qed.
+
+(* ================================================================ the texts Check reports *)
+Section Report.
+  Variable parse_dur : string -> option Z.
+  Variable regex_ok : string -> bool.
+  Variable atoi : string -> option Z.
+  Variable regex_err : string -> string.
+  Variable dur_err : string -> string.
+  Notation P := (parse_line parse_dur regex_ok atoi).
+  Notation E := (error_of parse_dur regex_ok atoi regex_err dur_err).
+  Notation R := (check_report parse_dur regex_ok atoi regex_err dur_err).
+  Notation Rf := (check_report_from parse_dur regex_ok atoi regex_err dur_err).
+
+  (* a text exactly for the lines that parse to an Error item (any byte string) *)
+  Lemma error_of_iff l : (exists t, E l = Some t) <-> P l = IError.
+  Proof.
+    unfold error_of, parse_line.
+    destruct (scan_comment l) as [[f m]|]; [split; [intros [t H]; discriminate|discriminate]|].
+    destruct (scan_delay l) as [[d m]|].
+    { destruct (dur_of parse_dur d); [|split; [reflexivity|eexists; reflexivity]].
+      split; [intros [t H]; discriminate|]. destruct (m =? ""); discriminate. }
+    destruct (cond_gate l).
+    { destruct (scan_cond l) as [[[[p n] t] m]|]; [|split; [reflexivity|eexists; reflexivity]].
+      destruct (regex_ok p); [|split; [reflexivity|eexists; reflexivity]].
+      destruct (atoi n); [|split; [reflexivity|eexists; reflexivity]].
+      destruct (parse_dur t); [|split; [reflexivity|eexists; reflexivity]].
+      split; [intros [x H]; discriminate|discriminate]. }
+    destruct (scan_filter l) as [[v a]|]; [|split; [intros [t H]; discriminate|discriminate]].
+    destruct (verb_of v).
+    - destruct (regex_ok a); [split; [intros [t H]; discriminate|discriminate]|split; [reflexivity|eexists; reflexivity]].
+    - destruct (regex_ok a); [split; [intros [t H]; discriminate|discriminate]|split; [reflexivity|eexists; reflexivity]].
+    - split; [intros [t H]; discriminate|discriminate].
+    - split; [reflexivity|eexists; reflexivity].
+  Qed.
+
+  Lemma error_of_none l : E l = None <-> P l <> IError.
+  Proof.
+    rewrite <- error_of_iff. destruct (E l) as [t|]; split; try discriminate.
+    - intros H; exfalso; apply H; eexists; reflexivity.
+    - intros _ [t H]; discriminate.
+    - reflexivity.
+  Qed.
+
+  Lemma ends_intro (a l t : string) : Some (a ++ l) = Some t -> exists pre, t = pre ++ l.
+  Proof. intros H; injection H as <-; exists a; reflexivity. Qed.
+
+  (* the text embeds the offending line verbatim, as its end; the one text that does not is the
+     unknown filter verb's, which ends with the verb as written *)
+  Theorem error_text_names_its_line l t :
+    E l = Some t ->
+    (exists pre, t = pre ++ l) \/
+    (exists v a pre, scan_filter l = Some (v, a) /\ verb_of v = VUnknown /\ t = pre ++ v).
+  Proof.
+    unfold error_of.
+    destruct (scan_comment l) as [[f m]|]; [discriminate|].
+    destruct (scan_delay l) as [[d m]|].
+    { destruct (dur_of parse_dur d); [discriminate|]. intros H. left. eapply ends_intro; exact H. }
+    destruct (cond_gate l).
+    { destruct (scan_cond l) as [[[[p n] to] m]|]; [|intros H; left; eapply ends_intro; exact H].
+      destruct (regex_ok p); [|intros H; left; eapply ends_intro; exact H].
+      destruct (atoi n); [|intros H; left; eapply ends_intro; exact H].
+      destruct (parse_dur to); [discriminate|intros H; left; eapply ends_intro; exact H]. }
+    destruct (scan_filter l) as [[v a]|] eqn:SF; [|discriminate].
+    destruct (verb_of v) eqn:EV.
+    - destruct (regex_ok a); [discriminate|intros H; left; eapply ends_intro; exact H].
+    - destruct (regex_ok a); [discriminate|intros H; left; eapply ends_intro; exact H].
+    - discriminate.
+    - intros H. right. exists v, a. destruct (ends_intro _ _ _ H) as [pre Hp]. exists pre. split; [reflexivity|split; [exact EV|exact Hp]].
+  Qed.
+
+  (* ---- the report: exactly the malformed lines, each once, in order, with its own number ---- *)
+  Lemma report_from_in k ls n t :
+    In (n, t) (Rf k ls) <-> exists i l, nth_error ls i = Some l /\ n = (k + N.of_nat i)%N /\ E l = Some t.
+  Proof.
+    revert k; induction ls as [|x ls IH]; intros k; cbn [check_report_from].
+    - split; [intros []|intros (i & l & H & _); destruct i; discriminate].
+    - assert (Tail : In (n, t) (Rf (N.succ k) ls) <->
+                     exists i l, nth_error ls i = Some l /\ n = (k + N.of_nat (S i))%N /\ E l = Some t).
+      { rewrite IH. split; intros (i & l & H1 & H2 & H3); exists i, l; repeat split; try assumption; lia. }
+      destruct (E x) as [tx|] eqn:Ex.
+      + cbn [In]. rewrite Tail. split.
+        * intros [H|(i & l & H1 & H2 & H3)].
+          -- injection H as <- <-. exists 0%nat, x. repeat split; [lia|exact Ex].
+          -- exists (S i), l. repeat split; assumption.
+        * intros (i & l & H1 & H2 & H3). destruct i as [|i].
+          -- cbn in H1. injection H1 as <-. left. f_equal; [lia|congruence].
+          -- right. exists i, l. repeat split; assumption.
+      + rewrite Tail. split.
+        * intros (i & l & H1 & H2 & H3). exists (S i), l. repeat split; assumption.
+        * intros (i & l & H1 & H2 & H3). destruct i as [|i].
+          -- cbn in H1. injection H1 as <-. congruence.
+          -- exists i, l. repeat split; assumption.
+  Qed.
+
+  Lemma report_from_lower k ls n t : In (n, t) (Rf k ls) -> (k <= n)%N.
+  Proof. intros H. apply report_from_in in H as (i & l & _ & -> & _). lia. Qed.
+
+  Lemma report_from_sorted k ls : StronglySorted (fun a b => (fst a < fst b)%N) (Rf k ls).
+  Proof.
+    revert k; induction ls as [|x ls IH]; intros k; cbn [check_report_from]; [constructor|].
+    destruct (E x) as [tx|]; [|apply IH].
+    constructor; [apply IH|]. apply Forall_forall. intros [n t] H. cbn.
+    apply report_from_lower in H. lia.
+  Qed.
+
+  Lemma report_from_length k ls : N.of_nat (List.length (Rf k ls)) = count_true (fun l => is_error (P l)) ls.
+  Proof.
+    unfold count_true. revert k; induction ls as [|x ls IH]; intros k; cbn [check_report_from filter]; [reflexivity|].
+    destruct (E x) as [tx|] eqn:Ex.
+    - assert (H : P x = IError) by (apply error_of_iff; eexists; exact Ex). rewrite H. cbn [is_error List.length].
+      specialize (IH (N.succ k)). lia.
+    - apply error_of_none in Ex. destruct (P x); try contradiction; cbn [is_error]; apply IH.
+  Qed.
+
+  (* for every list of lines: line number n (1-based) with text t is in the report iff line n
+     is an error line and t is its text; the numbers strictly increase (each malformed line once,
+     in the order of the file); as many entries as Check counts; empty iff no line is an error *)
+  Theorem check_report_exact ls :
+    (forall n t, In (n, t) (R ls) <->
+       exists l, nth_error ls (N.to_nat n - 1) = Some l /\ (1 <= n)%N /\ P l = IError /\ E l = Some t) /\
+    StronglySorted (fun a b => (fst a < fst b)%N) (R ls) /\
+    N.of_nat (List.length (R ls)) = check_count (parse_file parse_dur regex_ok atoi ls) /\
+    (R ls = [] <-> check_fails (parse_file parse_dur regex_ok atoi ls) = false).
+  Proof.
+    unfold check_report. repeat split.
+    - intros H. apply report_from_in in H as (i & l & H1 & -> & H3). exists l.
+      replace (N.to_nat (1 + N.of_nat i) - 1)%nat with i by lia.
+      repeat split; [exact H1|lia|apply error_of_iff; eexists; exact H3|exact H3].
+    - intros (l & H1 & H2 & _ & H4). apply report_from_in. exists (N.to_nat n - 1)%nat, l.
+      repeat split; [exact H1|lia|exact H4].
+    - apply report_from_sorted.
+    - rewrite report_from_length. symmetry. apply check_count_is_malformed_count.
+    - intros H. unfold check_fails, parse_file. destruct (existsb _ _) eqn:X; [|reflexivity].
+      apply existsb_exists in X as (i & Hi & Ei). apply in_map_iff in Hi as (l & <- & Hl).
+      assert (PE : P l = IError) by (destruct (P l); try discriminate; reflexivity).
+      apply error_of_iff in PE as [t Et]. apply In_nth_error in Hl as [k Hk].
+      assert (In (1 + N.of_nat k, t)%N (Rf 1 ls)) by (apply report_from_in; exists k, l; repeat split; assumption).
+      rewrite H in H0. destruct H0.
+    - intros H. destruct (Rf 1 ls) as [|[n t] r] eqn:X; [reflexivity|].
+      assert (I : In (n, t) (Rf 1 ls)) by (rewrite X; left; reflexivity).
+      apply report_from_in in I as (i & l & H1 & _ & H3).
+      assert (PE : P l = IError) by (apply error_of_iff; eexists; exact H3).
+      unfold check_fails, parse_file in H.
+      assert (existsb is_error (map P ls) = true).
+      { apply existsb_exists. exists (P l). split; [apply in_map; eapply nth_error_In; exact H1|rewrite PE; reflexivity]. }
+      congruence.
+  Qed.
+End Report.
+
+Section FileReport.
+  Variable parse_dur : string -> option Z.
+  Variable regex_ok : string -> bool.
+  Variable atoi : string -> option Z.
+  Variable regex_err : string -> string.
+  Variable dur_err : string -> string.
+  Notation E := (error_of parse_dur regex_ok atoi regex_err dur_err).
+  Notation Bad := (malformed parse_dur regex_ok atoi).
+
+  Lemma file_lines_unlines ls last :
+    (forall l, In l ls -> no_nl l) -> no_nl last ->
+    file_lines (unlines ls ++ last) = map drop_cr (phys ls last).
+  Proof. intros NL NLl. unfold file_lines. rewrite (raw_lines_unlines _ _ NL NLl). reflexivity. Qed.
+
+  Lemma phys_no_nl ls last l :
+    (forall x, In x ls -> no_nl x) -> no_nl last -> In l (map drop_cr (phys ls last)) -> no_nl l.
+  Proof.
+    intros NL NLl H. apply in_map_iff in H as (x & <- & Hx). apply no_nl_drop_cr.
+    unfold phys in Hx. apply in_app_or in Hx as [Hx|Hx]; [apply NL; exact Hx|].
+    destruct (last =? ""); [destruct Hx|]. destruct Hx as [<-|[]]. exact NLl.
+  Qed.
+
+  (* Check on a loaded file: its report lists exactly the malformed lines of the file, each once,
+     in the order of the file, each with its own 1-based physical line number and the text
+     ParseLine formats for it; as many as Check counts; empty iff no line is malformed *)
+  Theorem check_reports_exactly_the_malformed_lines ls last :
+    (forall l, In l ls -> no_nl l) -> no_nl last ->
+    let lines := map drop_cr (phys ls last) in
+    let rep := check_report parse_dur regex_ok atoi regex_err dur_err (file_lines (unlines ls ++ last)) in
+    (forall n t, In (n, t) rep <->
+       exists l, nth_error lines (N.to_nat n - 1) = Some l /\ (1 <= n)%N /\ Bad l /\ E l = Some t) /\
+    StronglySorted (fun a b => (fst a < fst b)%N) rep /\
+    N.of_nat (List.length rep) = check_count (load_text parse_dur regex_ok atoi (unlines ls ++ last)) /\
+    (rep = [] <-> ~ exists l, In l lines /\ Bad l).
+  Proof.
+    intros NL NLl. cbv zeta. unfold load_text. rewrite (file_lines_unlines _ _ NL NLl).
+    set (lines := map drop_cr (phys ls last)).
+    assert (LNL : forall l, In l lines -> no_nl l) by (intros l H; eapply phys_no_nl; eassumption).
+    destruct (check_report_exact parse_dur regex_ok atoi regex_err dur_err lines) as (HI & HS & HL & HE).
+    repeat split.
+    - intros H. apply HI in H as (l & H1 & H2 & H3 & H4). exists l. repeat split; try assumption.
+      apply error_iff_malformed; [apply LNL; eapply nth_error_In; exact H1|exact H3].
+    - intros (l & H1 & H2 & H3 & H4). apply HI. exists l. repeat split; try assumption.
+      apply error_iff_malformed; [apply LNL; eapply nth_error_In; exact H1|exact H3].
+    - exact HS.
+    - exact HL.
+    - intros H (l & Hl & B). apply HE in H.
+      assert (check_fails (parse_file parse_dur regex_ok atoi lines) = true).
+      { apply check_iff_malformed; [exact LNL|]. exists l. split; assumption. }
+      congruence.
+    - intros H. apply HE. destruct (check_fails _) eqn:X; [|reflexivity].
+      exfalso. apply H. apply check_iff_malformed in X; [exact X|exact LNL].
+  Qed.
+End FileReport.
